@@ -1189,6 +1189,9 @@ pub fn cases(tier: Tier) -> Vec<Case> {
         add("oid", "OBJECT IDENTIFIER", "root OBJECT IDENTIFIER ::= { iso 3 6 }", "{ root 1 }".into(), Val::Oid(vec![1, 3, 6, 1]), "leading-value-reference".into());
         add("oid", "OBJECT IDENTIFIER", "root OBJECT IDENTIFIER ::= { iso 3 6 }\nmid OBJECT IDENTIFIER ::= { root 1 4 }", "{ mid 1 311 }".into(), Val::Oid(vec![1, 3, 6, 1, 4, 1, 311]), "chained-value-reference".into());
         add("oid", "OBJECT IDENTIFIER", "", "{ 2 999 4294967295 }".into(), Val::Oid(vec![2, 999, 4294967295]), "max-arc".into());
+        // the referenced value is declared with a type reference to OBJECT IDENTIFIER
+        add("oid", "OBJECT IDENTIFIER", "Oid2 ::= OBJECT IDENTIFIER\nroot Oid2 ::= { iso 3 6 }", "{ root 1 }".into(), Val::Oid(vec![1, 3, 6, 1]), "reference-to-value-of-named-oid-type".into());
+        add("oid", "Oid2", "Oid2 ::= OBJECT IDENTIFIER\nroot Oid2 ::= { iso 3 6 }\nmid Oid2 ::= { root 1 4 }", "{ mid 1 311 }".into(), Val::Oid(vec![1, 3, 6, 1, 4, 1, 311]), "chained-reference-named-oid-type".into());
         // ---- CHOICE / SEQUENCE / SEQUENCE OF
         let cp = "Cho ::= CHOICE { n INTEGER, b BOOLEAN, c Cho2 }\nCho2 ::= CHOICE { z NULL, m INTEGER (0..9) }\nSq ::= SEQUENCE { p INTEGER, q BOOLEAN, r Cho2 }\nLst ::= SEQUENCE OF INTEGER\nLstB ::= SEQUENCE OF BOOLEAN";
         add("choice", "Cho", cp, "n:5".into(), Val::Choice("n".into(), Box::new(Val::Int("5".into()))), "depth=1".into());
